@@ -316,4 +316,19 @@ def StepOne : Nat → List Tok → Prop
   | _, [] => True
   | prev, t :: ts => (t.line = prev ∨ t.line = prev + 1) ∧ StepOne t.line ts
 
+/-- words of a line joined by single blanks -/
+def joinBlank : List Word → List Rune
+  | [] => []
+  | [w] => w
+  | w :: ws => w ++ 32 :: joinBlank ws
+
+/-- no hyphenated line break is ever pending while scanning `rs` -/
+def NoDefer (E : Env) (rs : List Rune) : Prop :=
+  ∀ p, p <+: rs → (scanRunes E false p).deferredEOL = false ∧ (scanRunes E false p).deferredWord = false
+
+/-- an EOL token is the last token of its line: the token after it is on the next line -/
+def EolLast : List Tok → Prop
+  | a :: b :: ts => (a.word = [nl] → b.line = a.line + 1) ∧ EolLast (b :: ts)
+  | _ => True
+
 end LC.V2Tok
